@@ -189,7 +189,7 @@ func (m *MemoryInstance) Grow(_ context.Context, delta uint32) (result uint32, o
 
 	// If exceeds the max of memory size, we push -1 according to the spec.
 	newPages := currentPages + delta
-	if newPages > m.Max {
+	if newPages > m.Max || newPages < currentPages { // the sum may wrap around 2^32
 		return 0, false
 	} else if newPages > m.Cap { // grow the memory.
 		m.Buffer = append(m.Buffer, make([]byte, MemoryPagesToBytesNum(delta))...)
